@@ -418,6 +418,8 @@ class Scheduler:
         self.clock.t = max(self.clock.t, t.deadline)
         t.timed_out = True
         t.state = RUNNABLE
+        if self.keep_events:
+            self.events.append((t.name, "timeout", {"what": t.what}))
 
     def _pick_forced(self):
         """Next thread when the current one cannot continue.  None = nobody (all finished, or the run
@@ -1015,7 +1017,8 @@ class SelectShim:
                 rr, ww = SelectShim._ready(rlist, wlist)
                 return bool(rr or ww)
             timed_out = not s.block(ready, "select", dl)
-            r, w = SelectShim._ready(rlist, wlist)
+            # a select() that timed out returns empty lists, whatever became ready since
+            r, w = ([], []) if timed_out else SelectShim._ready(rlist, wlist)
         s.event("select-ret", pipe=any(isinstance(x, PipeR) for x in r), sock=any(isinstance(x, SSock) for x in r),
                 w=len(w), timeout=timed_out)
         return r, w, []
